@@ -759,8 +759,25 @@ impl Check {
     where
         S: Strategy,
         M: Fn() -> S + Sync,
+        S::Value: Debug + Serialize + DeserializeOwned + Send + Clone,
+        F: Fn(&S::Value) -> Verdict + Sync,
+    {
+        self.prop_export(name, cases, mk, f, |v| v.clone())
+    }
+
+    /// Like `prop`, but a failing (shrunk) case is passed through `export`
+    /// before it is written as a replay file. Use it when the generated value
+    /// is a vector of raw choices whose meaning depends on generator code: the
+    /// exported form should be self-contained (e.g. the built model) so that
+    /// saved regressions keep their meaning when the generator evolves. The
+    /// oracle must accept both forms.
+    pub fn prop_export<S, M, F, X>(&mut self, name: &str, cases: u64, mk: M, f: F, export: X)
+    where
+        S: Strategy,
+        M: Fn() -> S + Sync,
         S::Value: Debug + Serialize + DeserializeOwned + Send,
         F: Fn(&S::Value) -> Verdict + Sync,
+        X: Fn(&S::Value) -> S::Value,
     {
         if !self.sub_selected(name) {
             return;
@@ -836,7 +853,8 @@ impl Check {
                 continue;
             }
             if seen_sigs.insert(sig.clone()) {
-                let path = self.write_replay(name, &value, &sig, &detail);
+                let exported = export(&value);
+                let path = self.write_replay(name, &exported, &sig, &detail);
                 self.report_violation(sig, detail, path);
             }
         }
